@@ -28,7 +28,7 @@ CLAIM = dict(cat="proof", design="§3 C08, Appendix A.4, §2.1 E-S",
         "exhaustive and seeded schedules; the extracted model runs the same schedules and every step (operation, variable, value before/after, return value, complete shared state) is compared; "
         "schedules contain barriers (end of a parallel region) at which the master thread calls the real clear/clear_after/get_free_elements (pools filled to the last slot, cursor wrapped, slots held "
         "above and below the offset) and the model performs the corresponding step; client views and the complete state are compared after the call.",
-   note="C++11 seq_cst atomics are modelled as sequentially consistent interleaving (what std::atomic defaults guarantee); plain non-atomic reads/writes (queue array and size under the queue "
+   note="Not in the model: AtomicValue::pre_add/pre_subtract (photon countdown of the continuous source) are run by real threads under the same deterministic scheduler and decided by the oracle alone (counter = sum of the completed operations at every quiescent point); MemorySpace buffers are stamped by their holder (handed out empty, untouched while held). C++11 seq_cst atomics are modelled as sequentially consistent interleaving (what std::atomic defaults guarantee); plain non-atomic reads/writes (queue array and size under the queue "
         "lock) are modelled as atomic, executed together with the preceding atomic operation of the same thread - stated, not verified; compare_exchange_weak is assumed not to fail spuriously "
         "(true for lock cmpxchg on x86-64). Progress theorems are about a thread that runs alone from the given state (no fairness assumption is made about schedules). Queue capacity is a "
         "client obligation (add_task does not check it without assertions). Not modelled: MemorySpace::add_photons overflow copy (sequential, no atomic operation of its own beyond "
